@@ -22,12 +22,13 @@ def git_env(home, date):
 
 
 class RealGit:
-    def __init__(self, path, date, remote=True):
+    def __init__(self, path, date, remote=True, gitfile=False):
         self.path = path
         self.date = date
         self.home = os.path.dirname(path)
         self.remote_path = None
         self.has_remote = remote
+        self.gitfile = gitfile      # `.git` is a file ("gitdir: ..."), as in linked worktrees, submodules, --separate-git-dir
 
     @property
     def env(self):
@@ -47,7 +48,10 @@ class RealGit:
         return proc.stdout.decode("utf-8", "surrogateescape")
 
     def init(self):
-        self.git("init", "-q", "-b", "main")
+        if self.gitfile:
+            self.git("init", "-q", "-b", "main", "--separate-git-dir", self.path + ".gitdir")
+        else:
+            self.git("init", "-q", "-b", "main")
         self.git("config", "core.autocrlf", "false")
         self.git("config", "core.quotepath", "false")
         self.git("config", "commit.gpgsign", "false")
